@@ -274,7 +274,7 @@ def main(tier, seed):
     o = alphabet.ordinary(seed, 1)[0]
     T = tier == 'thorough'
     shards = []
-    for dlm in [',', ';', '\t', ' ', '|', '::']:
+    for dlm in [',', ';', '\t', ' ', '|', '::', '.', '\\', ']', '^', '$', '*', '(']:      # incl. characters that are special inside regular expressions
         shards.append({'part': 'split', 'o': o, 'dlms': [dlm], 'policies': ['quoted'], 'maxlen': 8 if T else 7})
         shards.append({'part': 'split', 'o': o, 'dlms': [dlm], 'policies': ['simple', 'whitespace', 'monocolumn'], 'maxlen': 6 if T else 5})
         shards.append({'part': 'quote', 'o': o, 'dlms': [dlm], 'maxlen': 6 if T else 5})
